@@ -29,7 +29,7 @@ ANN = frozenset(['remove_variable_annotations', 'remove_return_annotations', 're
 
 def option_sets(tier):
     subs = [s for s in pm.full(RENAME) if s]
-    if tier == 'quick':
+    if tier != 'thorough':
         return [(frozenset(), s) for s in subs] + [(ANN, frozenset(RENAME))]
     return [(b, s) for b in (frozenset(), ANN) for s in subs]
 
@@ -39,7 +39,8 @@ def bound(tier):
 
 
 def tasks(tier):
-    return [('scope', tier, i, NPARTS) for i in range(NPARTS)] + [('ann', tier, i, NPARTS) for i in range(NPARTS)]
+    from mc import subtask
+    return [('scope', tier, i, NPARTS) for i in range(NPARTS)] + [('ann', tier, i, NPARTS) for i in range(NPARTS)] + subtask.interp_tasks(tier)
 
 
 def examine(desc, src, sets, res):
@@ -109,6 +110,9 @@ def violation_for(src, base_out, base, ren, ref):
 
 def run_task(task):
     res = core.Result()
+    if task[0] == 'interp':
+        from mc import subtask
+        return subtask.run_interp_task(__name__, task, res)
     kind, tier, part, nparts = task
     sets = option_sets(tier)
     if kind == 'ann':
@@ -124,6 +128,9 @@ def run_task(task):
 
 
 def replay(case):
+    if 'interpreter' in case:
+        from mc import subtask
+        return subtask.replay_under(__name__, case)
     src = case['source']
     code = scope_engine.try_compile(src)
     if code is None:
